@@ -4,7 +4,7 @@ import json
 import os
 import time
 
-VERIF = os.path.dirname(os.path.dirname(os.path.dirname(os.path.abspath(__file__))))
+VERIF = os.environ.get("VERIF_HOME") or os.path.dirname(os.path.dirname(os.path.dirname(os.path.abspath(__file__))))
 EVID = os.environ.get("VERIF_EVIDENCE", os.path.join(VERIF, "evidence"))
 
 
